@@ -282,6 +282,19 @@ def run(tier, replay):
                            "expected": "StackMon.tla: same boundary in the same context => same depths; expression stacks empty at boundaries"},
                           feats, name=tag.lower())
     os.remove(mpath)
+    # 3. instruction-level conformance of the values: the real register file before every instruction of a sample of
+    #    the runs, validated in lock step against VM.tla (evidence about the model's fidelity; reported, never an alarm of C15)
+    import vmtrace
+    nvm = 120 if tier == "quick" else 1500
+    dyn_ids = {r["id"] for r in dyn}
+    ran = [p for p in progs if p["id"] in dyn_ids]
+    samp = ran[:: max(1, len(ran) // nvm)][:nvm] if not replay else ran
+    vresps = pool.map([{"op": "run", "text": p["text"], "igen": True, "trace": True, "regs": True, "budget": 1500, "stdin": "1\r\n2\r\n",
+                        "dir": os.path.join(fsroot, "v%d" % i)} for i, p in enumerate(samp)], timeout=60)
+    shutil.rmtree(fsroot, ignore_errors=True)
+    vruns = [{"id": p["id"], "insns": r["igen"]["insns"], "trace": r.get("trace") or [], "errors": r.get("errors") or []}
+             for p, r in zip(samp, vresps) if r and "igen" in r and "panic" not in r]
+    vm = vmtrace.validate("C15", vruns) if vruns else {}
     srccount = {}
     for p in progs:
         k = p["src"].split(":")[0]
@@ -298,6 +311,9 @@ def run(tier, replay):
                 "by program text",
         "accepted_programs": nacc, "by_source": srccount, "dynamic_runs_monitored": len(dyn),
         "opcode_effects_observed": len(deltas), "drift": drift[:20],
+        "vm_conformance": {"module": "Trace_VM / VM.tla", "programs": vm.get("programs", 0), "steps_validated": vm.get("steps_validated", 0),
+                           "resynchronisations_on_unmodelled_values": vm.get("resynchronisations", 0),
+                           "value_drift": vm.get("drift", [])[:20], "states": vm.get("states", 0)},
         "checker_cmd": cmd, "exhaustive": False,
     }
     assumptions = ["opcode effect table of VMAbs.tla (cross-checked against the effects the hook observed: see 'drift')",
